@@ -745,6 +745,12 @@ def eval_dump_path(case, disk0, tmp):
     what = "%s %s[%s].%s := <%s>" % (case["sample"], case["kind"], case["label"], case["field"], case["cls"])
     import pathlib
     fails = []
+    if (case.get("node", 0) + len(case["cls"])) % 2:
+        # the caller looked at the text first: dumps() of the invalid object is refused, then comes the dump to the path
+        try:
+            obj.dumps()
+        except Exception:
+            pass
     for form, dest in (("a path string", path), ("a pathlib.Path", pathlib.Path(path))):
         try:
             obj.dump(dest)
